@@ -3,6 +3,7 @@
 package server
 
 import (
+	"errors"
 	"fmt"
 	"strings"
 	"testing"
@@ -24,11 +25,12 @@ type c02cfg struct {
 	other       bool // a second, unrelated service exists
 	slow        bool // two in-flight requests of different length and slow late arrivals
 	offer       bool // the in-flight request offers a protocol upgrade the target does not take
+	conflict    bool // the redeploy also claims a host owned by another service and is rejected after its targets became healthy: the old set keeps serving
 	lateProbe   bool // probe timeout > probe interval; the new targets' first probe hangs, later ones succeed; clients arrive on a time grid
 }
 
 func (c c02cfg) String() string {
-	return fmt.Sprintf("old=%d new=%d clients=%dx%d inflight=%v redeploys=%d changeHosts=%v other=%v slow=%v offer=%v lateProbe=%v", c.nOld, c.nNew, c.clients, c.perClient, c.inflight, c.redeploys, c.changeHosts, c.other, c.slow, c.offer, c.lateProbe)
+	return fmt.Sprintf("old=%d new=%d clients=%dx%d inflight=%v redeploys=%d changeHosts=%v other=%v slow=%v offer=%v lateProbe=%v conflict=%v", c.nOld, c.nNew, c.clients, c.perClient, c.inflight, c.redeploys, c.changeHosts, c.other, c.slow, c.offer, c.lateProbe, c.conflict)
 }
 
 func tnames(prefix string, n int) []string {
@@ -111,6 +113,9 @@ func c02Scenario(c c02cfg) *Scenario {
 				if c.changeHosts {
 					a.ServiceOptions.Hosts = []string{"a.example.com", fmt.Sprintf("g%d.example.com", g)}
 				}
+				if c.conflict {
+					a.ServiceOptions.Hosts = []string{"a.example.com", "b.example.com"} // b belongs to s2
+				}
 				w.Deploy(a)
 				w.Do(ReqSpec{ID: fmt.Sprintf("after%d", g), Host: "a.example.com", Path: "/"})
 			}
@@ -140,13 +145,14 @@ func c02Scenario(c c02cfg) *Scenario {
 		time.Sleep(2 * vI)
 		w.Do(ReqSpec{ID: "final", Host: "a.example.com", Path: "/"})
 	}
+	cfgConflict := c.conflict
 	sc.Check = func(w *World) []Violation {
 		var vs []Violation
 		for _, n := range w.Notes {
 			vs = append(vs, Violation{"C02", "setup", n})
 		}
 		for _, c := range w.Cmds {
-			if c.Err != nil {
+			if c.Err != nil && !(cfgConflict && errors.Is(c.Err, ErrorHostInUse)) {
 				vs = append(vs, Violation{"C02", "deploy-failed", fmt.Sprintf("%s %s: %v", c.Name, c.Args, c.Err)})
 			}
 		}
@@ -157,7 +163,12 @@ func c02Scenario(c c02cfg) *Scenario {
 				continue
 			}
 			if r.Status != 200 || r.ServedBy() == "" {
-				vs = append(vs, Violation{"C02", fmt.Sprintf("%d via %s", r.Status, lastSites(r.Sites, 2)),
+				sig := fmt.Sprintf("%d via %s", r.Status, lastSites(r.Sites, 2))
+				if cfgConflict {
+					// no target is replaced by a rejected redeploy, so nothing explains a draining or missing target
+					sig = "rejected-redeploy " + sig
+				}
+				vs = append(vs, Violation{"C02", sig,
 					fmt.Sprintf("request %s answered %d by the proxy itself (body %q) at %v; sites=%v", r.ID, r.Status, firstN(r.Body, 60), r.End, r.Sites)})
 				continue
 			}
@@ -213,6 +224,7 @@ func c02Configs(tier string) []c02cfg {
 		cfgs = append(cfgs, c02cfg{nOld: 1, nNew: 1, clients: 1, perClient: 1, redeploys: 1, slow: true})
 		cfgs = append(cfgs, c02cfg{nOld: 1, nNew: 1, clients: 2, perClient: 1, redeploys: 1, slow: true})
 		cfgs = append(cfgs, c02cfg{nOld: 1, nNew: 1, clients: 4, perClient: 1, redeploys: 1, lateProbe: true})
+		cfgs = append(cfgs, c02cfg{nOld: 1, nNew: 1, clients: 2, perClient: 1, redeploys: 1, inflight: true, other: true, conflict: true})
 		return cfgs
 	}
 	for _, sh := range [][2]int{{1, 1}, {2, 1}, {1, 2}, {2, 2}} {
@@ -230,6 +242,11 @@ func c02Configs(tier string) []c02cfg {
 	for _, sh := range [][2]int{{1, 1}, {2, 1}, {1, 2}} {
 		cfgs = append(cfgs, c02cfg{nOld: sh[0], nNew: sh[1], clients: 4, perClient: 1, redeploys: 1, lateProbe: true})
 		cfgs = append(cfgs, c02cfg{nOld: sh[0], nNew: sh[1], clients: 5, perClient: 1, redeploys: 2, lateProbe: true})
+	}
+	for _, sh := range [][2]int{{1, 1}, {2, 1}} {
+		for _, inf := range []bool{false, true} {
+			cfgs = append(cfgs, c02cfg{nOld: sh[0], nNew: sh[1], clients: 2, perClient: 1, redeploys: 1, inflight: inf, other: true, conflict: true})
+		}
 	}
 	for _, ch := range []bool{false, true} {
 		for _, ot := range []bool{false, true} {
